@@ -38,7 +38,7 @@ CHECKS = {
     },
     "C04": {
         "level": "fault_enumeration",
-        "parts": [{"gen": "C04", "quick": 192, "thorough": 1920}, {"gen": "C04udp", "quick": 36, "thorough": 360}],
+        "parts": [{"gen": "C04", "quick": 264, "thorough": 2640}, {"gen": "C04udp", "quick": 36, "thorough": 360}],
         "exhaustive_claim": False,
         "rule": "one plan = one (protocol, cipher, single/multi-user) cell x direction (client->server or server->client) x segmentation family; the real client and server run with a "
                 "man-in-the-middle node on their link that forwards the byte stream in exact pieces and lets the receiver go quiet after each piece (no EOF at the end). Families: "
